@@ -526,7 +526,9 @@ def _container_ann(ann: str, default=None) -> bool:
 
 
 def _list_like(p) -> bool:
-    return _container_ann(norm(p.annotation) if p.annotation is not None else "", p.default)
+    # (a default built by a call - InstanceLabelMap(), dict(), defaultdict(list) - is one object made when the
+    # function is defined and shared by every call that leaves the parameter out)
+    return _container_ann(norm(p.annotation) if p.annotation is not None else "", p.default) or isinstance(p.default, ast.Call)
 
 
 def _dataclass_fields(cls) -> list:
@@ -564,6 +566,15 @@ def list_param_writers(prog) -> dict:
                 return set(alias.get(e.id, ()))
             if isinstance(e, ast.Attribute) and isinstance(e.value, ast.Name) and e.value.id == f.self_name:
                 return set(alias.get("self." + e.attr, ()))
+            if isinstance(e, ast.Attribute):
+                return origins(e.value, alias)  # a component of the object: writing into it changes the object
+            if isinstance(e, ast.Call) and isinstance(e.func, ast.Attribute) and not e.args and not e.keywords and origins(e.func.value, alias):
+                # an accessor that hands out a component of the object itself (`return self.<attr>`)
+                for g in prog.resolve_call(f, e):
+                    if isinstance(g, Func) and g.self_name:
+                        body = [st for st in g.node.body if not (isinstance(st, ast.Expr) and isinstance(st.value, ast.Constant))]
+                        if len(body) == 1 and isinstance(body[0], ast.Return) and isinstance(body[0].value, ast.Attribute) and isinstance(body[0].value.value, ast.Name) and body[0].value.value.id == g.self_name:
+                            return origins(e.func.value, alias)
             if isinstance(e, ast.IfExp):
                 return origins(e.body, alias) | origins(e.orelse, alias)
             if isinstance(e, ast.NamedExpr):
@@ -681,6 +692,27 @@ def check_ctor_purity(ctx: Ctx):
     ctx.ok("R15.3", None, None, "constructor-purity:package", f"{n} constructors: none modifies a container argument in place", None, nontrivial=False)
     if n < 20:
         ctx.undecided("R15.3.floor", None, None, "floor:R15.3c", f"{n} constructors analysed, confirmed floor is 20")
+
+
+def check_shared_defaults(ctx: Ctx):
+    """R15.3 (shared defaults): a default argument that is an object - a list / dict / set literal or something
+    built by a call, made once when the function is defined - is not modified in place, neither directly nor
+    through a component an accessor hands out nor by a function it is passed to (it would carry one call's
+    data into the next: what is evaluated later would depend on what was evaluated before)."""
+    prog = ctx.prog
+    written = list_param_writers(prog)
+    n = 0
+    for f in prog.package_functions():
+        if f.parent is not None:
+            continue
+        for prm in f.call_params:
+            if not isinstance(prm.default, (ast.List, ast.Dict, ast.Set, ast.Call, ast.ListComp, ast.DictComp)):
+                continue
+            n += 1
+            w = written.get(f.qual, {}).get(prm.name)
+            if w is not None:
+                ctx.violated("R15.3", f, w[1], f"{f.qual}:default:{prm.name}:shared-object", "a default argument that is an object shared by all calls is not modified in place", {"default": norm(prm.default)[:60], "modified_at": w[0]})
+    ctx.ok("R15.3", None, None, "shared-defaults:package", f"{n} object-valued default arguments: none is modified in place", None, nontrivial=False)
 
 
 def check_state_through_callees(ctx: Ctx):
@@ -961,6 +993,7 @@ def check(ctx: Ctx):
     _run_rule(ctx, "check_globals", check_globals)
     _run_rule(ctx, "check_state_through_callees", check_state_through_callees)
     _run_rule(ctx, "check_ctor_purity", check_ctor_purity)
+    _run_rule(ctx, "check_shared_defaults", check_shared_defaults)
     _run_rule(ctx, "R15.9", check_metric_call_history)
     _guard(ctx, "R15.8", check_param_aliasing)
 
